@@ -2,17 +2,22 @@
 (* Known-answer tests from the standards, evaluated by TLC: the executable *)
 (* specifications are checked against the published vectors before they   *)
 (* are used as oracles.                                                    *)
-EXTENDS SM3, TLC
+EXTENDS SM3, SM4, TLC
 VARIABLE step
 
 Abc == <<97, 98, 99>>
 Abcd16 == [i \in 1..64 |-> 97 + ((i - 1) % 4)]
+K1 == <<1, 35, 69, 103, 137, 171, 205, 239, 254, 220, 186, 152, 118, 84, 50, 16>>
 Hex(bs) == FoldLeft(LAMBDA acc, b : acc \o HexDigit(b \div 16) \o HexDigit(b % 16), "", bs)
 
 KAT(n) ==
   CASE n = 1 -> Hex(Digest(Abc)) = "66c7f0f462eeedd9d1f2d46bdc10e4e24167c4875cf2f7a2297da02b8f4ba8e0"
     [] n = 2 -> Hex(Digest(Abcd16)) = "debe9ff92275b8a138604889c18e5a4d6fdb70e5387e5765293dcba39c0c5732"
-NKAT == 2
+    [] n = 3 -> Hex(Enc(K1, K1)) = "681edf34d206965e86b3e94f536e4246"
+    [] n = 4 -> Dec(K1, Enc(K1, K1)) = K1
+    [] n = 5 -> /\ SBox(0) = 214 /\ SBox(1) = 144 /\ SBox(255) = 72
+                /\ Hex(WordsToBytes(<<CKw(0), CKw(31)>>)) = "00070e15646b7279"
+NKAT == 5
 
 Init == step = 0
 Next == /\ step < NKAT /\ step' = step + 1
